@@ -6,6 +6,7 @@
 package simnet
 
 import (
+	"encoding/binary"
 	"errors"
 	"fmt"
 	"net"
@@ -96,18 +97,20 @@ type Call struct {
 }
 
 type Net struct {
-	Script      Script
-	StallNs     int64 // how long a send call of fault class "stall" takes (default 15ms)
-	Faults      []Fault
-	FiltersOff  bool
-	EpsNs       int64 // cost of one Read
-	Sources     []*Source
-	Sinks       []*Sink
-	Ledger      []Event
-	Order       []OrderEv // global order of sends and reads (clock-independent)
-	NoPortCheck bool
-	Calls       []Call
-	counts      map[string]int
+	Script       Script
+	StallNs      int64 // how long a send call of fault class "stall" takes (default 15ms)
+	KeepZeroIPID bool  // do not apply the kernel's "IP ID filled in when zero" rule to probes
+	kernelIDs    int
+	Faults       []Fault
+	FiltersOff   bool
+	EpsNs        int64 // cost of one Read
+	Sources      []*Source
+	Sinks        []*Sink
+	Ledger       []Event
+	Order        []OrderEv // global order of sends and reads (clock-independent)
+	NoPortCheck  bool
+	Calls        []Call
+	counts       map[string]int
 	// SACK: real listeners whose accepted connections trigger a synthesized SYN-ACK
 	Listeners []*Listener
 	// NoOutgoingLoop disables delivery of the process's own probes to capture handles
@@ -243,12 +246,28 @@ func (s *Sink) WriteTo(buf []byte, addr netip.AddrPort) error {
 		if vsched.Aborting() {
 			return nil
 		}
+	} else if c == "fatal-slow" {
+		// the send call fails, but only after having waited (for buffer space) for StallNs
+		st := n.StallNs
+		if st == 0 {
+			st = 15_000_000
+		}
+		vtime.Sleep(time.Duration(st))
+		return injErr("sendto", "fatal")
 	} else if c != "" {
 		return injErr("sendto", c)
 	}
 	s.Writes++
 	raw := append([]byte{}, buf...)
 	p, err := refcodec.Parse(raw)
+	if err == nil && p.V == 4 && p.IPID == 0 && !n.KeepZeroIPID {
+		// raw(7), IP_HDRINCL: "Packet ID: filled in when zero" - the kernel replaces an identification field of zero with
+		// one of its own before the packet leaves (observed in the kernel lab of C13); routers quote what was on the wire
+		n.kernelIDs++
+		binary.BigEndian.PutUint16(raw[4:], 0x7000+uint16(n.kernelIDs%0x0fff))
+		refcodec.FixIPv4Checksum(raw)
+		p, err = refcodec.Parse(raw)
+	}
 	ev := Event{T: vsched.Now(), Dir: "tx", Raw: raw, P: p, Sink: s.ID, Thread: vsched.CurrentThread(), Meta: Meta{ToTTL: -1, Flow: s.ID}, CallT: callT}
 	n.Ledger = append(n.Ledger, ev)
 	n.Order = append(n.Order, OrderEv{"tx", s.ID, s.ID})
@@ -523,7 +542,7 @@ type SynAckSpec struct {
 
 type Listener struct {
 	// NotYet: the run that will dial this listener has not started (a later run of a chain): nothing to wait for
-	NotYet bool
+	NotYet   bool
 	L        *net.TCPListener
 	Addr     netip.AddrPort
 	Spec     SynAckSpec
